@@ -253,6 +253,14 @@ def check_c10(payload):
         lit = v if rng.random() < 0.3 else -v
         cnf.add_constraint(TrueConstraint(lit))
         out["src"] += "%% extra constraint on the CNF: variable %d is %s\n" % (v, "true" if lit > 0 else "false")
+    if not opt:
+        # the same CNF compiled with other compiler options first, in the same process (nothing of that compilation may
+        # be handed out for the default one)
+        try:
+            DDNNF.create_from(cnf, smooth=False)
+            out["src"] += "% compiled once with smooth=False before the default compilation\n"
+        except Exception:      # noqa
+            pass
     try:
         nnf = DDNNF.create_from(cnf)
     except Exception as e:      # noqa
